@@ -79,7 +79,8 @@ def keyword_oracle(tier, seed):
              ("max", {"initial": 1e6}), ("min", {"initial": -1e6}), ("mean", {"dtype": "complex64"}), ("sum", {"dtype": "float32"}),
              ("sum", {"where": True}), ("sum", {"keepdims": True}), ("mean", {"keepdims": True}), ("max", {"keepdims": True}),
              ("median", {"keepdims": True}), ("ptp", {"keepdims": True}), ("any", {"keepdims": True}), ("var", {"keepdims": True, "ddof": 1})]
-    shapes = [(2, 3, 4), (3, 2)] + ([(2, 3, 4, 5), (4, 1, 3)] if tier == "thorough" else [])
+    # extents of one included: there NumPy's keepdims result has the operand's own shape
+    shapes = [(2, 3, 4), (3, 2), (3, 1, 4), (1, 1)] + ([(2, 3, 4, 5), (4, 1, 3), (1, 5)] if tier == "thorough" else [])
     for shape in shapes:
         nd = len(shape)
         names = rng.sample(["x", "y", "z", "t2", "t10"], nd)
